@@ -1,6 +1,7 @@
 package props
 
 import (
+	"sync/atomic"
 	"fmt"
 	"math/rand"
 	"os"
@@ -739,8 +740,85 @@ func c02Scenario(t *testing.T, rng *rand.Rand) (viols [][2]string, stats map[str
 	return w.viols, w.stats, w.log.String(), sig
 }
 
+// c02PairRace: a leave intent and a NEWER join intent about the same listed member are
+// handled at the same instant on two goroutines (memberlist hands packets and streams to
+// NotifyMsg concurrently). Whichever is applied first, Lamport order decides: the member ends
+// alive with the join's time. Real time, spin barrier, per-round sub-microsecond skew.
+func c02PairRace(rng *rand.Rand, seq, rounds int) (viols []string, stats map[string]int) {
+	stats = map[string]int{}
+	nw := simnet.New(int64(seq))
+	nd, err := cluster.Start(nw, cluster.Opts{Name: fmt.Sprintf("pair-%d", seq), IP: "10.2.0.1", Profile: "passive", Mutate: func(c *serf.Config) {
+		c.BroadcastTimeout, c.LeavePropagateDelay = 0, 0
+		c.ReapInterval = 1000 * time.Hour
+	}})
+	if err != nil {
+		return []string{"setup: " + err.Error()}, stats
+	}
+	defer nd.Close()
+	const members = 4
+	for i := 0; i < members; i++ {
+		nd.NotifyJoin(cluster.FakeNode(fmt.Sprintf("x%d", i), fmt.Sprintf("10.2.1.%d", i+1), 7946, nil))
+	}
+	lt := uint64(10)
+	for round := 0; round < rounds && len(viols) == 0; round++ {
+		lt += 10
+		var start atomic.Bool
+		g := newBGroup()
+		for i := 0; i < members; i++ {
+			name := fmt.Sprintf("x%d", i)
+			leave := wire.Encode(wire.Leave, &wire.MsgLeave{LTime: lt + 2, Node: name})
+			join := wire.Encode(wire.Join, &wire.MsgJoin{LTime: lt + 4, Node: name})
+			spinL, spinJ := rng.Intn(60), rng.Intn(60)
+			g.Go(func() {
+				for !start.Load() {
+				}
+				for k := 0; k < spinL; k++ {
+					_ = start.Load()
+				}
+				nd.NotifyMsg(leave)
+			})
+			g.Go(func() {
+				for !start.Load() {
+				}
+				for k := 0; k < spinJ; k++ {
+					_ = start.Load()
+				}
+				nd.NotifyMsg(join)
+			})
+		}
+		start.Store(true)
+		g.Wait()
+		st, err := nd.State()
+		if err != nil {
+			return []string{"setup: state: " + err.Error()}, stats
+		}
+		mm := nd.MemberMap()
+		for i := 0; i < members; i++ {
+			name := fmt.Sprintf("x%d", i)
+			stats["pair_races"]++
+			if mm[name] != serf.StatusAlive || st.StatusLTimes[name] != lt+4 {
+				viols = append(viols, fmt.Sprintf("round %d: leave(%s,%d) and the newer join(%s,%d) handled at the same instant: the member is %v with status time %d, Lamport order demands alive with status time %d",
+					round, name, lt+2, name, lt+4, mm[name], st.StatusLTimes[name], lt+4))
+			}
+		}
+	}
+	return
+}
+
 func TestC02(t *testing.T) {
 	r := evid.Start(t, "C02", "exploration")
+	if os.Getenv("VERIF_PHASE") != "race" {
+		r.Cases("pairrace", r.N(8, 200), 2, func(ci int, rng *rand.Rand) {
+			viols, stats := c02PairRace(rng, ci, 1500)
+			r.Eval(1)
+			for k, v := range stats {
+				r.Count(k, v)
+			}
+			for _, v := range viols {
+				r.Violation("pair-race-not-by-lamport-time", ci, v, v)
+			}
+		})
+	}
 	n := r.N(12000, 400000)
 	if os.Getenv("VERIF_PHASE") == "race" {
 		n = r.N(150, 4000)
